@@ -395,12 +395,21 @@ func (x *Exec) builtinExtern(st *State, key string, c *ssa.CallCommon, a []*Val,
 		return &Val{K: VTuple, Typ: rt, F: []*Val{str(b), scalar(e, nil)}}, true, nil
 	case "encoding/base64.(*Encoding).EncodeToString":
 		use()
+		if !isStdBase64(c) {
+			// another alphabet / padding: a different (uninterpreted) function of receiver and data
+			return str(x.ufApp("b64other", SStr, T(0), T(1))), true, nil
+		}
 		x.axiomsOn["b64"] = true
 		x.D.declareFun("uf.b64dec", []Sort{SStr}, SStr)
 		x.D.declareFun("uf.b64valid", []Sort{SStr}, SBool)
 		return str(x.ufApp("b64", SStr, T(1))), true, nil
 	case "encoding/base64.(*Encoding).DecodeString":
 		use()
+		if !isStdBase64(c) {
+			b := x.ufApp("b64otherdec", SStr, T(0), T(1))
+			e := x.D.fresh("b64err", SErr)
+			return &Val{K: VTuple, Typ: rt, F: []*Val{str(b), scalar(e, nil)}}, true, nil
+		}
 		x.axiomsOn["b64"] = true
 		x.D.declareFun("uf.b64", []Sort{SStr}, SStr)
 		b := x.ufApp("b64dec", SStr, T(1))
@@ -829,4 +838,17 @@ func (x *Exec) sortedFact(st *State, c *ssa.CallCommon, lessVal *Val, n *Term) {
 	x.usedContracts[key] = true
 	x.assume(st, tForall([]*Term{bi, bj}, tImp(tAnd(tCmp("<=", intLit(0), bi), tCmp("<", bi, bj), tCmp("<", bj, n)), tNot(t))))
 	x.assumptions["sort.Slice returns the slice sorted w.r.t. its less function (assumed; the less closure's contract is proved)"] = true
+}
+
+// isStdBase64 reports whether the receiver of a base64 method call is the package variable base64.StdEncoding.
+func isStdBase64(c *ssa.CallCommon) bool {
+	if len(c.Args) == 0 {
+		return false
+	}
+	u, ok := c.Args[0].(*ssa.UnOp)
+	if !ok {
+		return false
+	}
+	g, ok := u.X.(*ssa.Global)
+	return ok && g.Name() == "StdEncoding" && g.Pkg != nil && g.Pkg.Pkg.Path() == "encoding/base64"
 }
